@@ -487,8 +487,11 @@ class Gen:
 
     def stmt(self, depth):
         r = self.rnd.random()
-        if depth > 0 and r < 0.17:
+        if depth > 0 and r < 0.13:
             return ("for", [self.stmt(depth - 1) for _ in range(self.rnd.randint(1, 3))])
+        if depth > 0 and r < 0.22:
+            return ("if", self.rnd.randrange(2), [self.stmt(depth - 1) for _ in range(self.rnd.randint(1, 2))],
+                    [self.stmt(depth - 1) for _ in range(self.rnd.randint(1, 2))] if self.rnd.random() < 0.6 else None)
         if r < 0.75:
             return self.acc()
         if r < 0.87:
@@ -509,6 +512,18 @@ class Gen:
             if base in self.ro:
                 self.ro.add(nm)
         body = [self.stmt(2) for _ in range(self.rnd.randint(2, 5))]
+        if family == "branch_writers":
+            # one buffer used at function level first and then written in both branches of one conditional (or in a
+            # conditional nested in a loop), followed by a reader
+            x = self.rnd.choice(["%b0", "%b1", "%a0"])
+            def w():
+                return (self.rnd.choice(["gen", "dart"]), self.pick("F"), self.pick("F"), x, "F", self.newtag())
+            first = (self.rnd.choice(["gen", "dart"]), x, self.pick("F"), self.pick("F", writable=True), "F", self.newtag()) if self.rnd.random() < 0.5 else w()
+            cond = ("if", self.rnd.randrange(2), [w()], [w()])
+            if self.rnd.random() < 0.3:
+                cond = ("for", [cond])
+            tail = [("use", x, self.newtag())] if self.rnd.random() < 0.5 else [(self.rnd.choice(["gen", "dart"]), x, x, self.pick("F", writable=True), "F", self.newtag())]
+            body = [first, cond] + tail + body[:2]
         if tiles:
             pre = []
             for nm, base, off in self.views[:2]:
@@ -549,6 +564,13 @@ def render(prog):
                 L.append(P + f"scf.for %i{n[0]} = %lb to %ub step %st {{")
                 emit(s[1], ind + 1)
                 L.append(P + "}")
+            elif s[0] == "if":
+                L.append(P + f"scf.if %cond{s[1]} {{")
+                emit(s[2], ind + 1)
+                if s[3] is not None:
+                    L.append(P + "} else {")
+                    emit(s[3], ind + 1)
+                L.append(P + "}")
 
     emit(body, 2)
     data = ", ".join("[" + ", ".join(str(100 + r * C + c) for c in range(C)) + "]" for r in range(R))
@@ -559,7 +581,7 @@ def render(prog):
     return f"""
 builtin.module {{
   "memref.global"() <{{alignment = 64 : i64, constant, initial_value = dense<[{data}]> : tensor<{R}x{C}xi32>, sym_name = "g0", sym_visibility = "private", type = {FULL}}}> : () -> ()
-  func.func public @f(%b0 : {FULL}, %b1 : {FULL}, %o0 : index, %lb : index, %ub : index, %st : index){rett} {{
+  func.func public @f(%b0 : {FULL}, %b1 : {FULL}, %o0 : index, %lb : index, %ub : index, %st : index, %cond0 : i1, %cond1 : i1){rett} {{
     %g0 = memref.get_global @g0 : {FULL}
     %c0 = arith.constant dense<[{cdata}]> : {FULL}
     %a0 = memref.alloc() : {FULL}
@@ -611,7 +633,7 @@ def run_machine(m, name, args_roots, K, after, o0, lbubst):
             raise irsym.InterpError("argument layout not executable")
         root = M.new_root(f"arg{k}", args_roots[k])
         args.append(View(root, dims_of(a.type), fn_, f"arg{k}"))
-    ret = I.run_func(f, args + [o0] + list(lbubst))
+    ret = I.run_func(f, args + [o0] + list(lbubst) + [z3.Int("c0"), z3.Int("c1")])
     M.final_taint = [M.shadow.read(v) for v in args]
     finals = [M.logical(v) for v in args]
     return M, finals, f
@@ -851,7 +873,7 @@ def run(chk):
     n = 140 if quick else 1600
     for k in range(n):
         g = Gen(rnd)
-        progs.append((g.program("constant_tiles" if k % 4 == 3 else "mixed"), rnd.randrange(1 << 30), False))
+        progs.append((g.program("constant_tiles" if k % 4 == 3 else "branch_writers" if k % 6 == 1 else "mixed"), rnd.randrange(1 << 30), False))
     chk.add_results("programs", pmap(case_prog, progs, chunks=4))
     lays = []
     shapes = [(4, 4), (2, 4), (4, 8), (8, 8), (4, 6), (16,), (2, 3, 4)]
